@@ -175,6 +175,14 @@ inline void InputPcap::recvPacket()
       }
     }
 
+    // a record cut short by the snap length, too short to hold the configured layers plus a payload,
+    // or with a payload that does not fit the packet buffer, carries nothing that could be decoded.
+    if ((header->caplen < header->len) || (header->len <= (pcap_offset_ + pcap_tail_)) || 
+        ((header->len - pcap_offset_ - pcap_tail_) > ETH_LEN))
+    {
+      continue;
+    }
+
     if (pcap_offline_filter(&msop_filter_, header, pkt_data) != 0)
     {
       std::shared_ptr<Buffer> pkt = cb_get_pkt_(ETH_LEN);
